@@ -45,7 +45,7 @@ PROPS = {
         "assumptions": ["reference client keeps resources it still retains when they are delivered again", "resources delivered by a get are kept while other requests of that client are pending"],
     },
     "C03": {
-        "suites": [("gw", "order"), ("gw", "refs"), ("gw", "reset"), ("gw", "access")],
+        "suites": [("gw", "order"), ("gw", "refs"), ("gw", "reset"), ("gw", "access"), ("gw", "query")],
         "theorems_carry": "queue discipline: processed ++ waiting = received for every interleaving of events, queueing starts and flushes (incl. re-queueing in the middle of a flush); mailbox FIFO and lock exclusion; what is delivered after the snapshot is a contiguous suffix of the emitted stream",
         "correspondence_only": "that the gateway's queues are used as the abstract discipline says: lockstep + sequence-number monitor on custom events",
         "assumptions": ["abstract queue FSM mirrors Subscription.Event/queueEvents/unqueueEvents"],
